@@ -83,8 +83,14 @@ class AuthEnv:
             f.write(b'%s %d %s\n' % (cookie_id, int(time.time()), cookie_hex))
 
 
-def cookie_response(server_challenge, cookie, client_challenge=b'c0ffee'):
+# the client's own challenge is an opaque token without white space: libdbus sends lower-case hex, others need not
+CLIENT_CHALLENGES = [b'c0ffee', b'C0FFEE', b'0123AbCdEf', b'Zm9vYmFy+/8=', b'c0ffee']
+
+
+def cookie_response(server_challenge, cookie, client_challenge=None):
     """DATA argument (before hex encoding) a conforming client sends."""
+    if client_challenge is None:
+        client_challenge = CLIENT_CHALLENGES[sum(server_challenge) % len(CLIENT_CHALLENGES)]
     digest = hashlib.sha1(server_challenge + b':' + client_challenge + b':' + cookie).hexdigest().encode('ascii')
     return client_challenge + b' ' + digest
 
